@@ -128,7 +128,16 @@ func c20Request(which string, st c20Start) *signature.SignRequest {
 		req.Payload.ContentType = "text/b"
 		req.SigningTime = pki.Now.Add(-2 * time.Hour)
 		req.Expiry = pki.Now.Add(240 * time.Hour) // request B also carries an expiry; request A has none
-		req.ExtendedSignedAttributes = []signature.Attribute{{Key: "io.example.b", Critical: true, Value: "b"}}
+		// request B also carries a deeply nested value and a long list (what the signing object reports is what a parse of the bytes reports)
+		var deep any = "leaf"
+		for i := 0; i < 10; i++ {
+			deep = []any{deep}
+		}
+		long := make([]any, 70)
+		for i := range long {
+			long[i] = "e"
+		}
+		req.ExtendedSignedAttributes = []signature.Attribute{{Key: "io.example.b", Critical: true, Value: "b"}, {Key: "io.example.deep", Critical: false, Value: deep}, {Key: "io.example.long", Critical: false, Value: long}}
 	case "fail-before":
 		if st.remote {
 			// refused by the up-front validation for another reason: the expiry falls into the same second as the signing time
